@@ -116,6 +116,27 @@ Definition recover_all_gen (fixed : bool) (hn : list (positive * info)) (real : 
   (subs, recover_job hn (map snd subs)).
 Definition recover_all := recover_all_gen true.
 
+(* A scheduler that did not restart still remembers the job's AllocatedHyperNode (cache.go keeps
+   it across sessions).  Session open (session.go:319-359, 376, 433):
+   removeInvalidAllocatedHyperNode forgets it when that HyperNode has no entry or the job has no
+   task in an allocated status; recoverAllocatedHyperNode then recovers the sub-jobs (none of
+   them is remembered in the traces) and recomputes the job's HyperNode as the LCA of the
+   sub-jobs' whenever it is empty OR some sub-job was just recovered — so a remembered value
+   only survives when nothing is recovered for any sub-job. *)
+Definition recover_with_memory (hn : list (positive * info)) (real : list (positive * list positive))
+           (policy : Z) (pods : list (Z * positive * Z)) (remembered : option positive)
+  : list (Z * option positive) * option (option positive) :=
+  let '(subs, lca) := recover_all hn real policy pods in
+  let placed := existsb (fun p => placed_status (fst (fst p))) pods in
+  let kept := match remembered with
+              | Some r => match aget r hn with Some _ => if placed then Some r else None | None => None end
+              | None => None end in
+  let updated := existsb (fun rs => match snd rs with Some _ => true | None => false end) subs in
+  (subs, match kept with
+         | Some r => if updated then lca else Some (Some r)
+         | None => lca
+         end).
+
 (* ---------- allocate.Recorder (recorder.go): decisions of the job-level candidates ---------- *)
 (* While a job-level candidate HyperNode is tried, the HyperNode chosen for each sub-job is
    recorded under that candidate; after the commit the records of the selected candidate are
@@ -211,6 +232,13 @@ Qed.
 Theorem adjust_sub_independent : forall table job job' subs,
   snd (adjust false table job subs) = snd (adjust false table job' subs).
 Proof. reflexivity. Qed.
+
+(* finding D13: a hard limit given by a name that no HyperNode carries is not translated: the
+   spec keeps no numeric limit and the job is scheduled as if it had no constraint *)
+Lemma adjust_unknown_name_unconstrained :
+  fst (adjust false [1; 2] (Some (TName 0)) []) = None /\
+  fst (adjust false [1; 2] (Some (TName 2)) []) = Some 2.
+Proof. vm_compute. split; reflexivity. Qed.
 
 (* the mutant (sub-jobs skipped after a job-level failure) loses a valid sub-group limit *)
 Lemma adjust_skip_refuted :
